@@ -135,6 +135,7 @@ func c03Scenario(name string, signers []string, min uint64, fullGov bool) *Scena
 			entGov("gov(signers=S1,S2,S3;min=3)", "S1,S2,S3", 3, 100, "gov", 1),
 			entGov("gov(signers=S1,S2,S3;min=1)", "S1,S2,S3", 1, 100, "gov", 1),
 			entGov("gov(limit=10)", "S1,S2,S3", 2, 10, "gov", 1),
+			entGov("gov(limit=2^63)", "S1,S2,S3", 2, 1<<63, "gov", 1),
 			failing(entGov("gov(signers=S1,O;min=1)+failing-msg", "S1,O", 1, 100, "gov", 1)),
 			decideAndGov("S2", 1, 2, "gov(signers=S1,S2,S3;min=3)", "S1,S2,S3", 3, 100),
 			decideAndGov("S2", 1, 2, "gov(signers=S1;min=1)", "S1", 1, 100),
